@@ -71,6 +71,12 @@ def gen(seed, idx, tier):
     if lead.startswith(pre):
       feats.update(ff)
   spec, rejected = scen.pick_model(seed, idx, features=feats, curated_p=0.0 if any(lead.startswith(p_) for p_ in fam) else 0.1, size="s")
+  # The reference of this check is the same world inside a batch whose other worlds differ. Under the sweep-and-prune broadphase the
+  # position of one world's candidate pairs in the strided work list - and with it the listing order of its contacts and the round-off of
+  # everything summed over them - depends on how many candidates the other worlds have (DESIGN 7, C09a): a bit-exact twin comparison is
+  # only sound under the N x N broadphase, so that is what this check uses (SAP is exercised by C09, C11, C12, C16, C17).
+  if spec.get("mopt"):
+    spec["mopt"].pop("broadphase", None)
   nf = int(r.choice([1, 1, 2, 3]))
   # cycle deterministically through the field list so that every field is visited regularly, plus random companions
   fields = [fl[(idx * 3 + j) % len(fl)] for j in range(1)] + [fl[int(r.integers(0, len(fl)))] for _ in range(nf - 1)]
